@@ -206,7 +206,7 @@ C09_V(S, S2, c, e, r) ==
        (IF exp /\ e.act = "Probe"
         THEN V("C09.servedUnauthenticated", ~r.ran /\ r.seenUser = NONE)
         ELSE {})
-       \cup (IF exp /\ Flushed(r) /\ e.act \notin InteractiveLogins \cup {"RegisterPost"}
+       \cup (IF exp /\ Flushed(r) /\ e.act \notin InteractiveLogins \cup {"RegisterPost", "OAuthStart"}
              THEN V("C09.expiredWiped", \A k \in SessKeys \ WL(c) : S2.sess[b][k] = EmptySess[k])
                   \cup V("C09.whitelistKept", \A k \in SessKeys \cap WL(c) : S2.sess[b][k] = S.sess[b][k])
              ELSE {})
@@ -316,11 +316,31 @@ C19_V(S, S2, c, e) ==
                    ELSE S2.sess[b].uid = u)
 
 -----------------------------------------------------------------------------
+(* C17 - secrets are never stored or logged in recoverable form; mailed tokens   *)
+(* leave only in the e-mail addressed to the account.  r.leaks is filled by the  *)
+(* harness scanner (every plaintext secret it typed or was shown, in several     *)
+(* encodings, against every stored field and the step's log lines); the          *)
+(* specification itself stores nothing but identifiers, so it is always empty    *)
+(* at the design level.                                                          *)
+
+MailOwner(S2, e, m) ==
+  CASE m.kind = "confirm" -> {u \in Pids : S2.db[u].ex /\ S2.db[u].cTok = m.tok}
+    [] m.kind = "recover" -> {u \in Pids : S2.db[u].ex /\ S2.db[u].rTok = m.tok}
+    [] m.kind = "tfaverify" -> IF IsReq(e) THEN {S2.sess[e.b].uid} ELSE {}
+    [] OTHER -> {}
+
+C17_V(S, S2, c, e, r) ==
+  V("C17.noPlaintextStoredOrLogged", r.leaks = {})
+  \cup V("C17.mailOnlyToOwner",
+         \A m \in r.mails : m.tok >= 1 /\ \E u \in MailOwner(S2, e, m) :
+               m.to \subseteq ({u} \cup (IF m.kind = "recover" THEN Secondary(u) ELSE {})))
+
+-----------------------------------------------------------------------------
 
 PropViolations(S, S2, c, e, r) ==
   C01_V(S, S2, c, e) \cup C02_V(S, S2, c, e) \cup C03_V(S, S2, c, e, r) \cup C04_V(S, S2, c, e)
   \cup C05_V(S, S2, c, e) \cup C06_V(S, S2, c, e) \cup C07_V(S, S2, c, e, r) \cup C09_V(S, S2, c, e, r)
   \cup C10_V(S, S2, c, e) \cup C12_V(S, S2, c, e) \cup C13_V(S, S2, c, e) \cup C14_V(S, S2, c, e, r)
-  \cup C19_V(S, S2, c, e)
+  \cup C19_V(S, S2, c, e) \cup C17_V(S, S2, c, e, r)
 
 =============================================================================
